@@ -419,7 +419,7 @@ def main():
         states=max(1, sum((r.get("steps") or 0) for r in recs)),
         transitions=max(1, sum((r.get("vccs") or 0) for r in recs)),
         traces_validated_against_impl=sum((r.get("witnesses") or 0) for r in recs),
-        evaluations=max(1, n_ob), distinct_nontrivial=max(2, n_ok) if n_ok >= 2 else 2 if n_ok else 0,
+        evaluations=n_ob, distinct_nontrivial=n_ok,
         rule="one evaluation = one harness obligation decided by cbmc over all symbolic inputs within its bound; non-trivial = verdict SUCCESS with its reachability witness(es) reached; states = symex steps, transitions = generated VCCs, traces_validated = witness traces cbmc produced through the real code",
         samples=samples,
         units_encoded=getattr(mod, "UNITS", []), units_sha256_16=sha_units(getattr(mod, "UNITS", [])),
